@@ -531,6 +531,11 @@ class Facts:
         self._bodies = {}
         self._src = {}
         self.body_names = list(self.j["bodies"].keys())
+        # methods of #[derive]d impls (Clone, PartialEq, Debug ...): mechanical copies, never rule sites
+        self.derived = set()
+        for im in self.impls:
+            if im.get("derived"):
+                self.derived.update(im.get("items", []))
 
     def body(self, name):
         if name not in self._bodies:
@@ -539,8 +544,10 @@ class Facts:
             self._bodies[name] = Body(name, self.j["bodies"][name], self)
         return self._bodies[name]
 
-    def bodies(self, pred=None):
+    def bodies(self, pred=None, include_derived=False):
         for n in self.body_names:
+            if not include_derived and (n in self.derived or self.j["bodies"][n].get("parent") in self.derived):
+                continue
             if pred is None or pred(n):
                 yield self.body(n)
 
